@@ -20,6 +20,8 @@ func c14(c *Ctx) {
 	c14R3(c)
 	c14R4(c, "C14.R4")
 	c14R6(c)
+	c14R9(c)
+	itemIndependent(c, "C14.R8", [][3]string{{eniPkg, "RemoteIPResource.ToRPC", "one configuration (with its own gateway) per allocation"}})
 	ruleArgSwap(c, "C14.R7", c.P.AllFuncs(), "the whole module (names are derived from the namespace / name / interface triple in that order)")
 	ruleStateless(c, "C14.R5", [][2]string{
 		{"pkg/link", "VethNameForPod"},
@@ -754,4 +756,54 @@ func c14R6(c *Ctx) {
 			"compared fields ⊇ {Off, Val, Mask}", "compared: "+strings.Join(keysOf(f), ", "))
 	}
 	c.Floor("C14.R6", "field-wise key comparisons", 1, len(keys))
+}
+
+// R9: a table-qualified route names the table of its own link. Inside the pod
+// every interface has its own routing table (its index + the constant): where a
+// route literal carries both LinkIndex: L and Table: T with T obtained from
+// GetRouteTableID(X) in the same function, X is L — a table keyed by anything
+// else (the parent interface's index, a configuration field) is shared by all
+// interfaces that have the same parent.
+func c14R9(c *Ctx) {
+	p := c.P
+	c.Rule("C14.R9", "in the datapath generators a route with LinkIndex: L and a Table computed by GetRouteTableID(X) in the same function has X = L; rules that point to such a table use the same value (one table per interface, keyed by that interface)")
+	getT := p.Func("plugin/driver/utils", "GetRouteTableID")
+	if getT == nil {
+		c.Unres("C14.R9", "utils.GetRouteTableID", "not found")
+		return
+	}
+	n := 0
+	for _, fn := range p.FuncsInPkg(datapathPkg) {
+		info := fn.Info()
+		// link parameter(s) of the generator
+		ast.Inspect(fn.Decl.Body, func(k ast.Node) bool {
+			cl, ok := k.(*ast.CompositeLit)
+			if !ok {
+				return true
+			}
+			var link, table ast.Expr
+			for _, e := range cl.Elts {
+				if kv, ok := e.(*ast.KeyValueExpr); ok {
+					switch exprString(kv.Key) {
+					case "LinkIndex":
+						link = kv.Value
+					case "Table":
+						table = kv.Value
+					}
+				}
+			}
+			if link == nil || table == nil {
+				return true
+			}
+			src, ok := ast.Unparen(derefLoose(fn, table)).(*ast.CallExpr)
+			if !ok || Callee(info, src) != getT.Obj || len(src.Args) != 1 {
+				return true // a parameter or a constant: decided by C13.R5 / C14.R2
+			}
+			n++
+			c.Check(derefString(fn, src.Args[0]) == derefString(fn, link), "C14.R9", fn.Name+": the route's table is the table of the route's link", p.Pos(cl), fn.Key(),
+				"Table: GetRouteTableID("+exprString(link)+")", "LinkIndex: "+exprString(link)+" but Table: GetRouteTableID("+exprString(src.Args[0])+")")
+			return true
+		})
+	}
+	c.Floor("C14.R9", "table-qualified routes with a link in the generators", 4, n)
 }
